@@ -143,13 +143,13 @@ def ensure_streams(app: appboot.App):
     a = mp4synth.make_track("audio", 48000, [96000, 96000, 96000, 95988], samples_per_segment=94, seed=162, track_id=2,
                             sample_durations_in="trun")
     mp4synth.register(app, "synfrac", "Synthetic 7.99975 s", {"synfrac_v1": v, "synfrac_a1": a}, timing_from="synfrac_a1")
-    # synodd: an AUDIO timing reference whose duration is not a multiple of its segment count (287002 ticks in 3
+    # sgodd: an AUDIO timing reference whose duration is not a multiple of its segment count (287002 ticks in 3
     # segments: segment_duration x count != duration), fragments addressed through an explicit tfhd base_data_offset
     # (video: position of the moof; audio: absolute file offsets), as older packagers write them
     v = mp4synth.make_track("video", 240, [480, 480, 480], samples_per_segment=4, seed=171, track_id=1, base="explicit")
     a = mp4synth.make_track("audio", 48000, [96000, 95000, 96002], samples_per_segment=[94, 93, 94], seed=172, track_id=2,
                             sample_durations_in="trun", base="absolute")
-    mp4synth.register(app, "synodd", "Synthetic odd audio reference", {"synodd_v1": v, "synodd_a1": a}, timing_from="synodd_a1")
+    mp4synth.register(app, "sgodd", "Synthetic odd audio reference", {"sgodd_v1": v, "sgodd_a1": a}, timing_from="sgodd_a1")
     # synday: a timing reference longer than a day (timescale 1, ten segments of 9600 s = 26 h 40 min) – durations
     # whose days component is not zero (static manifests only)
     v = mp4synth.make_track("video", 1, [9600] * 10, samples_per_segment=4, seed=111, track_id=1)
